@@ -541,6 +541,9 @@ def oracle(case, obs):
                 if o["outcome"] != "ok":
                     if o["pairs"] != prev["pairs"]:
                         yield ("a rejected or skipped selector operation changed the pairs", i, feats)
+                    if o["outcome"] == "NamespaceErr" and wanted is not None:
+                        yield ("a selector whose prefixes are all declared in sheet.namespaces was rejected with "
+                               "NamespaceErr (it was not resolved through the sheet's mapping)", i, feats)
                 elif wanted is None:
                     yield ("a selector with an undeclared prefix was accepted", i, feats)
                 else:
@@ -715,9 +718,13 @@ def sel_alphabet(start):
     news = [T("t", "p:p", "x"), T("a", "p:p", "x"), T("n", "p:p", "x"), T("u", "p:p", "*"), T("t", "p:q", "x"),
             T("t", "-", "e"), T("t", "e", "b"), T("t", "p:zz", "x")]
     for a in targets:
+        # every single-selector entry point gets every spelling (declared prefix in each item kind, default
+        # namespace, no namespace, undeclared prefix): the entry points resolve through different code paths
         for it in news:
             ops.append(("ssel", a, 0, it))
-        ops += [("xsel", a, 0, T("t", "p:p", "y")), ("xsel", a, 1, T("n", "p:q", "y")), ("xsel", a, 0, T("a", "p:zz", "y")),
+            ops.append(("xsel", a, 0, it))
+            ops.append(("asel", a, it))
+        ops += [("xsel", a, 1, T("n", "p:q", "y")),
                 ("lsel", a, (T("t", "-", "e"),)), ("lsel", a, (T("a", "p:p", "z"), T("t", "*", "c"))),
                 ("rsel", a, (T("n", "p:q", "z"), T("t", "-", "e"))), ("rsel", a, (T("t", "p:zz", "z"), T("t", "-", "e"))),
                 ("asel", a, T("t", "p:p", "x")), ("asel", a, T("t", "-", "e")), ("asel", a, T("u", "p:zz", "*")),
